@@ -120,6 +120,7 @@ def run(pid, tier, seed, njobs=None):
            "samples": [distinct[-1]["ev"][:4]] if distinct else [], "growth_events": grows,
            "rejected": len(v["rejected"]),
            "tlc_trace_validation": {"states": v["states"], "distinct": v["distinct"], "wall_s": round(v["wall"], 1)}}
+    lib.add_spec_coverage(cov, pid, tier)
     rc = verdict.finish()
     lib.write_evidence(pid, tier, seed, "model_checking", cov, time.time() - t0, len(verdict.violations),
                        ["the inspector's table length and count", "collision-free = identity hash of key ids smaller than the table length", "TLC / SANY"])
